@@ -209,6 +209,48 @@ CHECKS.update({
             'axioms, AST translator, scheduler harness.', 'DESIGN §4 C15'),
 })
 
+CHECKS.update({
+    'C05': ('Lean 4 proof by mutual structural induction over nested statement lists (model of BeartypeNodeTransformer = the declarative '
+            'hand-decoration rule, for every module, configuration and beforelist schema) + translation validation of the real transformer on '
+            'grammar-generated and exhaustive-small modules + three-way execution differential (unhooked || hooked || hand-decorated source) '
+            'in fresh interpreters',
+            'Theorems (Props/C05.lean), for every module of the mini-AST (any nesting of def/async def/class/compound statements, decorator '
+            'stacks, Name/Attribute/Subscript targets), all settings of claw_is_pep526 / claw_decor_place_func / claw_decor_place_type / '
+            'default-vs-non-default configuration and every beforelist schema: the transformation only adds nodes (erase o xform = id); it '
+            'equals the hand-written rule (scope stack = "nearest enclosing def/class is a class", index loops = takeWhile/dropWhile '
+            'placement) on modules without subscript-target annotated assignments; the single import sits right after the '
+            'docstring/__future__ prefix and only when other statements exist; every added node carries the location of the statement it '
+            'belongs to; classes are decorated exactly once, methods never themselves, functions nested in methods once; every '
+            'side-effecting expression occurs once in evaluated positions when re-read annotations/attribute-target objects are pure. '
+            'Counterexample theorems for the two false clauses. Tie on every run: the real transformer\'s output is abstracted and compared '
+            'with xform/byHand (+ compile(), locations of all nodes), and runnable programs (clean / violating / unsupported-hint / impure / '
+            'subscript families) are executed unhooked, hooked and hand-decorated comparing stdout, globals, exception class, traceback '
+            'lines, warnings and offending-statement marks; the clauses are evaluated on the real outputs.',
+            'Partial: C05_eq_byHand_partial (Subscript targets never checked) and C05_once_partial (attribute-target object and annotation '
+            're-read by the check) - known findings with counterexample theorems. Not theorems: compile() success and run-time equivalence '
+            '(CPython not modelled; differential evidence). Outside the model: PEP 695 type statements, relative imports inside beforelist '
+            'packages, by-design BeartypeClawAstImportException on beforelist misuse (modelled by `raises`, validated). Trusted: Lean kernel '
+            '+ standard axioms; the harness (AST abstraction, generators, by-hand rebuilding via ast.unparse + line map); stub packages stand '
+            'in for celery/fastmcp/langchain_core.', 'DESIGN §4 C05'),
+    'C11': ('Lean 4 proofs over translator-extracted tables (exception/warning hierarchy with ancestor certificates, every raise/warn site '
+            'of beartype/) and over executable models of reraise_exception_placeholder, callable_cached, die_unless_hint and the wrapper\'s '
+            'exception paths + differential malformed-hint generator driving @beartype, is_bearable, die_if_unbearable, TypeHint, is_subhint '
+            'in forked children (PARTIAL)',
+            'Theorems (Props/C11.lean, 24): on tables re-extracted on every run - under = reachability; exported iff no underscore; every '
+            'public class under BeartypeException; Decor/Call exception and violation families rooted as documented and pairwise disjoint; '
+            'warnings under BeartypeWarning; all raise sites rooted, protocol builtins or re-raise; placeholder messages only under a '
+            'reraise handler. For all inputs - reraise keeps class and identity; after every history a @callable_cached function answers '
+            'what the function answers, never the hashing TypeError; the die_unless_hint table is total with three public outcomes; user '
+            'exceptions leave wrapper/is_bearable/die_if_unbearable as the same object. Tie: extracted = run-time classes; reraise / '
+            'callable_cached / die_unless_hint / scripted user exceptions vs the real functions; 1 500 (quick) / 12 000 (thorough) malformed '
+            'hints x 6 entry points judged on the REAL outcome.',
+            'PARTIAL: "whatever object is supplied as a hint" ranges over all of Python; the proofs cover the exception algebra, extracted '
+            'tables, memoiser, classification logic and wrapper exception paths, the unbounded claim is supported by the differential '
+            'generator only. 5 repairs (fixes/C11_*.patch), 30 listed findings. Trusted: Lean kernel + propext/Classical.choice/Quot.sound; '
+            'the AST translator (cross-checked at run time); the harness; exceptions raised by the hint object\'s own dunder methods count '
+            'as user code; time-outs give no verdict; third-party hints and Python other than 3.12 not driven.', 'DESIGN §4 C11'),
+})
+
 PENDING = {
 }
 
